@@ -882,6 +882,8 @@ def run(tier):
     io_wrapper_acks_transport_count(chk)      # 'all transport chunkings': short writes of the transport callback
     from .c02 import cbc_padding_length_range
     cbc_padding_length_range(chk)
+    from .c02 import length_gates_accept
+    length_gates_accept(chk)      # 'all payload lengths around fragment boundaries': a full 2^14 fragment is admitted by every mode
     from .. import engio, oblig as _ob
     _ob.run_obligations(chk, engio.progress_obligations())
     engio.ready_state(chk)
